@@ -27,7 +27,7 @@ def has_nontrivial_loop_body(text):
 class C06(common.SpecCheck):
     pid = "C06"
     title = "Every emitted program is valid, closed Python"
-    QUICK = {"nseeds": 8, "specs": 300, "round": 300, "budget": 0}
+    QUICK = {"nseeds": 8, "specs": 500, "round": 500, "budget": 0}
     rule = ("mixture of the legal classes S (shape partitioning), O (occupancy/flatten), A (affine, partitioned), K "
             "(cascades), T (spacetime graphics) and M (metrics mode, see C11) x hash-seed pool; EVERY distinct text "
             "reached under any seed goes through the definite-assignment analyser (model/closed.py) against a free-name "
